@@ -919,6 +919,12 @@ namespace fixedmath
       }
     //normalize the range to phi/2
     x = detail::tan_range(x);
+    //tan(x) = -tan(phi - x), approximations below are valid for 0 .. phi/2 only
+    if( x > fixpidiv2.v )
+      {
+      x = phi.v - x;
+      sign_ = !sign_;
+      }
     
     if( fixed_likely( x != fixpidiv2.v ) )
       {
